@@ -55,9 +55,55 @@ KEEP = {"_BuildTree", "_Leapfrog", "_Kfun", "_nuts_target", "_FindGoodEpsilon", 
 
 
 def _views(repo, ci, fn):
-    """the function as written and its normal form (private helpers other than the NUTS building blocks inlined, temporaries substituted)"""
+    """the function as written and its normal form (private helpers other than the NUTS building blocks inlined, temporaries substituted); a third view
+    names the kinetic terms: every expression that is the closed form of K(r) (however it got there: written out, or a helper that was inlined) is
+    rewritten to the dispatcher call self._Kfun(r, 'eval'), every standard-normal momentum draw to self._Kfun(1, 'sample')"""
     from .common import canon_keep
-    return [fn, canon_keep(repo, ci, fn, KEEP, subst=True)]
+    v = canon_keep(repo, ci, fn, KEEP, subst=True)
+    from ..canon import _fix
+    k = (id(repo), id(fn))
+    if k not in _KV:
+        # kinetic terms are named on the inlined form, temporaries are substituted afterwards (a temporary holding H' = logd' - K(r') then contains a
+        # call again and stays a temporary, exactly as with the dispatcher written out)
+        kv = _fix(_kinetic_named(canon_keep(repo, ci, fn, KEEP, subst=False)))
+        kv._rel = getattr(v, "_rel", None)
+        # ... and on the function as written, with single-expression private helpers (other than the building blocks) resolved inside expressions only
+        from ..canon import Resolver, _ExprInliner, set_parents
+        from ..flow import clone
+        raw = _ExprInliner(Resolver(repo, ci, keep=frozenset(KEEP)), 2, (fn.name,)).visit(clone(fn))
+        if isinstance(raw, ast.FunctionDef):
+            raw.body = [_ExprInliner(Resolver(repo, ci, keep=frozenset(KEEP)), 2, (fn.name,)).visit(st) for st in clone(fn).body]
+        kr = _kinetic_named(set_parents(ast.fix_missing_locations(raw)))
+        kr._rel = getattr(v, "_rel", None)
+        _KV[k] = (kv, kr)
+    return [fn, v, _KV[k][0], _KV[k][1]]
+
+
+_KV = {}
+
+
+def _kinetic_named(v):
+    from .common import expected_text
+    from ..flow import clone
+    from ..pattern import norm as pn
+    from ..canon import _SymOrder, set_parents
+    draw = expected_text("np.random.standard_normal(size=self.dim)")
+
+    class T(ast.NodeTransformer):
+        def generic_visit(self, n):
+            n = super().generic_visit(n)
+            if isinstance(n, ast.BinOp):
+                t = pn(_SymOrder().visit(clone(n)))
+                for x in {unparse(c) for c in ast.walk(n) if isinstance(c, (ast.Name, ast.Attribute)) and isinstance(getattr(c, "ctx", None), ast.Load)
+                          and not (isinstance(c, ast.Attribute) and c.attr == "T")}:
+                    if t in {expected_text(f) for f in (f"0.5*({x}.T@{x})", f"0.5*({x}@{x})", f"0.5*{x}.T@{x}", f"({x}.T@{x})/2", f"({x}@{x})/2")}:
+                        return ast.copy_location(ast.parse(f"self._Kfun({x}, 'eval')", mode="eval").body, n)
+            if isinstance(n, ast.Call) and pn(_SymOrder().visit(clone(n))) == draw:
+                return ast.copy_location(ast.parse("self._Kfun(1, 'sample')", mode="eval").body, n)
+            return n
+    out = T().visit(clone(v))
+    out._rel = getattr(v, "_rel", None)
+    return set_parents(ast.fix_missing_locations(out))
 
 
 def _leapfrog(chk, repo, ci):
@@ -125,7 +171,7 @@ def _leapfrog(chk, repo, ci):
     kf = repo.method(ci, "_Kfun")[1]
     r, fl = func_params(kf)[1:3]
     from .common import case_effects, expected_text
-    e1, e2 = case_effects(repo, ci, kf, fl, "eval"), case_effects(repo, ci, kf, fl, "sample")
+    e1, e2 = case_effects(repo, ci, kf, fl, "eval", level=2), case_effects(repo, ci, kf, fl, "sample", level=2)      # private helpers inlined
     ok = bool(e1) and bool(e2) and all(e["kind"] == "return" and e["ret"] in (expected_text(f"0.5*({r}.T@{r})"), expected_text(f"0.5*({r}@{r})"), expected_text(f"0.5*{r}.T@{r}")) for e in e1) \
         and all(e["kind"] == "return" and e["ret"] == expected_text("np.random.standard_normal(size=self.dim)") for e in e2)
     chk.add("C08-R1", f"{ci.qual}._Kfun", ok, site(repo, kf), "K(r) = r.r/2, r ~ N(0, I)", "kinetic energy / momentum draw changed", kf)
@@ -332,6 +378,49 @@ def _transition(chk, repo, ci, iface):
     best_of(chk, _views(repo, ci, src), lambda t, v: _transition_on(t, repo, ci, iface, v, src))
 
 
+def _result_names(fn, a, inst, arity=13):
+    """names the 13 results of a tree-building call are bound to, by position: the call's own tuple target, or -- when the result tuple is first held in a
+    variable t -- the targets of the later unpackings `x, y, z = t[i:j]` / `x = t[k]` with literal bounds (`_` where a position is never unpacked)"""
+    t0 = a.targets[0]
+    if isinstance(t0, (ast.Tuple, ast.List)):
+        return [_norm(e) for e in t0.elts]
+    if not isinstance(t0, ast.Name):
+        raise AnchorError(f"{inst}: result of the tree-building call is bound to `{unparse(t0)}`")
+    out = ["_"] * arity
+    # the unpackings this binding reaches: same block after the call, and the blocks enclosing it after the statement that contains the call
+    cands = []
+    node = a
+    while node is not None and node is not fn:
+        par = getattr(node, "_parent", None)
+        if par is None:
+            break
+        for fld in ("body", "orelse", "finalbody"):
+            blk = getattr(par, fld, None)
+            if isinstance(blk, list) and any(x is node for x in blk):
+                cands += blk[[i for i, x in enumerate(blk) if x is node][0] + 1:]
+        if isinstance(par, (ast.While, ast.For)):
+            break                    # the next iteration re-binds t before any earlier statement reads it
+        node = par
+    for st in cands:
+        if not (isinstance(st, ast.Assign) and len(st.targets) == 1 and isinstance(st.value, ast.Subscript) and isinstance(st.value.value, ast.Name)
+                and st.value.value.id == t0.id):
+            continue
+        sl = st.value.slice
+        tg = st.targets[0]
+        if isinstance(sl, ast.Slice) and sl.step is None and isinstance(tg, (ast.Tuple, ast.List)):
+            lo = 0 if sl.lower is None else (sl.lower.value if isinstance(sl.lower, ast.Constant) else None)
+            hi = arity if sl.upper is None else (sl.upper.value if isinstance(sl.upper, ast.Constant) else None)
+            if lo is None or hi is None or hi - lo != len(tg.elts):
+                raise AnchorError(f"{inst}: unpacking `{unparse(st)[:60]}` of the tree result has no literal bounds")
+            for k_, e in enumerate(tg.elts):
+                out[lo + k_] = _norm(e)
+        elif isinstance(sl, ast.Constant) and isinstance(sl.value, int) and isinstance(tg, ast.Name):
+            out[sl.value] = tg.id
+    if all(x == "_" for x in out):
+        raise AnchorError(f"{inst}: result of the tree-building call held in `{t0.id}` is never unpacked")
+    return out
+
+
 def _transition_on(chk, repo, ci, iface, fn, src):
     g = CFG(fn)
     inst = f"{ci.qual}.{fn.name}"
@@ -379,14 +468,14 @@ def _transition_on(chk, repo, ci, iface, fn, src):
     if len(tup) != 2:
         problems.append("expected one tree-building call per direction")
     else:
-        names = [[_norm(e) for e in a.targets[0].elts] for a in tup]
+        names = [_result_names(fn, a, inst) for a in tup]
         if names[0][6:] != names[1][6:]:
             problems.append("the two directions bind the subtree results to different names")
         x1, l1, g1, n1, s1, al, nal = names[0][6:13]
         b.update({"x1": x1, "l1": l1, "g1": g1, "n1": n1, "s1": s1, "al": al, "nal": nal})
         for a in tup:
             args = [_norm(x) for x in a.value.args]
-            tg = [_norm(e) for e in a.targets[0].elts]
+            tg = _result_names(fn, a, inst)
             side = tg[:3] if tg[0] != "_" else tg[3:6]
             if args[:3] != side or args[3:] != [b["H"], b["U"], args[5], b["j"], args[7]]:
                 problems.append(f"tree is not extended from (and stored back to) its own end with (H, log u, v, j, eps): args {args}, targets {tg[:6]}")
